@@ -8,6 +8,8 @@
    out :  <id> GR=<absent|hex> TMP=<absent|hex> EX=<extras> [ERR=<0|1> [ERR2=<0|1>]]      |  <id> IN=<0|1>
    The model always runs the skeleton generated from /repo (autosave_skeleton) with the executable crash effect
    torn_step; the temporary file is called .grol000.tmp in the model (the real name is random). *)
+(* the model appends to immutable lists (one copy of the file per write): give the GC room *)
+let () = Gc.set { (Gc.get ()) with Gc.minor_heap_size = 8 * 1024 * 1024; Gc.space_overhead = 400 }
 let tmp_name : n list = List.map (fun c -> n_of_int (Char.code c)) (List.of_seq (String.to_seq ".grol000.tmp"))
 let opt_of s = if s = "absent" then None else Some (bytes_of_hex s)
 let show_opt = function None -> "absent" | Some b -> hex_of_bytes b
